@@ -40,12 +40,20 @@ theorem run_ok (nl : Bool) (file text : List UInt8) :
     (∀ e, (run nl file text).err = some e → ∀ t, e.tok = some t →
       SpecOK file text (dirsOfRun (run nl file text)) t ∧
       e.file = t.file ∧ e.line = t.line ∧ e.col = t.col ∧
-      ∀ t' ∈ (run nl file text).toks, t'.off < t.off) := by
-  obtain ⟨_, h0, h1, h2, h3⟩ := runLoop_ok (file0 := file) (text := text) nl
+      ∀ t' ∈ (run nl file text).toks, t'.off < t.off) ∧
+    (∀ e, (run nl file text).err = some e → e.tok = none → ∀ k, e.kind = .scan k →
+      ∃ o, o ≤ text.length ∧
+        e.file = curFile file (dirsOfRun (run nl file text)) ∧
+        (e.line : Int) = (locAt text o).line + shiftOf text (dirsOfRun (run nl file text)) ∧
+        (∀ d ∈ dirsOfRun (run nl file text), d.endOff ≤ o) ∧
+        ∀ t' ∈ (run nl file text).toks, t'.off < o) := by
+  obtain ⟨_, h0, h1, h2, h3, h4⟩ := runLoop_ok (file0 := file) (text := text) nl
     ((S.init text).inp.length + 2) (PS.init file text) (init_pinv file text)
   exact ⟨h0, fun t ht => (h1 t ht).2, h2, fun e he t ht => by
     obtain ⟨a, b, c, d, _, f⟩ := h3 e he t ht
-    exact ⟨a, b, c, d, f⟩⟩
+    exact ⟨a, b, c, d, f⟩, fun e he hn k hk => by
+    obtain ⟨o, _, b, c, d, f, g⟩ := h4 e he hn k hk
+    exact ⟨o, b, c, d, f, g⟩⟩
 
 /-! ## 1. Every delivered token is located at the presumed position of its first byte -/
 
@@ -102,7 +110,7 @@ theorem diag_loc_correct_partial (nl : Bool) (file text : List UInt8) (e : PErr)
     e.file = presumedFile file (dirsOfRun (run nl file text)) t.off ∧
     e.line = presumedLine text (dirsOfRun (run nl file text)) t.off ∧
     e.col = column text t.off := by
-  obtain ⟨⟨a, b, _⟩, c, d, f, _⟩ := (run_ok nl file text).2.2.2 e he t ht
+  obtain ⟨⟨a, b, _⟩, c, d, f, _⟩ := (run_ok nl file text).2.2.2.1 e he t ht
   exact ⟨by rw [c]; exact a, by rw [d]; exact (b hk).1, by rw [f]; exact (b hk).2⟩
 
 def diag_loc_correct_full : Prop :=
@@ -127,13 +135,58 @@ theorem diag_at_newline (nl : Bool) (file text : List UInt8) (e : PErr) (t : PTo
     (he : (run nl file text).err = some e) (ht : e.tok = some t) (hk : t.kind = .TNEWLINE) :
     e.file = presumedFile file (dirsOfRun (run nl file text)) t.off ∧
     e.line = presumedLine text (dirsOfRun (run nl file text)) t.off + 1 ∧ e.col = 0 := by
-  obtain ⟨⟨a, _, b⟩, c, d, f, _⟩ := (run_ok nl file text).2.2.2 e he t ht
+  obtain ⟨⟨a, _, b⟩, c, d, f, _⟩ := (run_ok nl file text).2.2.2.1 e he t ht
   exact ⟨by rw [c]; exact a, by rw [d]; exact (b hk).1, by rw [f]; exact (b hk).2⟩
 
 -- non-vacuity: a diagnostic inside the SECOND directive, located under the numbering of the first
 example : ((run false inC b!"#line 5 \"g.c\"\n\n#line 9 x\n").err.map
     fun e => (e.file, e.line, e.col, e.kind, e.tok.map (·.off))) =
     some (b!"g.c", 6, 9, .expected .TNEWLINE .afterDirective, some 23) := by decide +kernel
+
+/-- **diagnostics of scan.c** ("EOF in comment", "newline in string literal", "invalid escape
+sequence", …, which pass `&s->loc`): the diagnostic names the presumed file, and the presumed line
+of some byte `o` that lies behind every delivered token (inside the offending literal or comment,
+or the end of the text) — or, when that byte is a new-line character, the line after it (the
+recorded finding again: "newline in string literal" names the line after the unterminated one).
+Every line directive completed before is taken into account. -/
+theorem scan_diag_loc (nl : Bool) (file text : List UInt8) (e : PErr) (k : ErrKind)
+    (he : (run nl file text).err = some e) (hk : e.kind = .scan k) (ht : e.tok = none) :
+    ∃ o, o ≤ text.length ∧ (∀ t' ∈ (run nl file text).toks, t'.off < o) ∧
+      e.file = presumedFile file (dirsOfRun (run nl file text)) o ∧
+      (text[o]? ≠ some NL → e.line = presumedLine text (dirsOfRun (run nl file text)) o) ∧
+      (text[o]? = some NL → e.line = presumedLine text (dirsOfRun (run nl file text)) o + 1) := by
+  obtain ⟨o, h1, h2, h3, h4, h5⟩ := (run_ok nl file text).2.2.2.2 e he ht k hk
+  have hall := inEffect_all h4
+  have hline : ∀ L : Nat, (locAt text o).line = (physAt text o).line + L →
+      e.line = presumedLine text (dirsOfRun (run nl file text)) o + L := by
+    intro L hL
+    unfold presumedLine
+    rw [hall]
+    unfold shiftOf at h3
+    rw [hL, physAt_line] at h3
+    cases hD : (dirsOfRun (run nl file text)).getLast? with
+    | none =>
+      rw [hD] at h3
+      simp only [] at h3 ⊢
+      omega
+    | some d =>
+      rw [hD] at h3
+      simp only [] at h3 ⊢
+      have hd : d ∈ dirsOfRun (run nl file text) := List.mem_of_getLast? hD
+      have := newlines_split text 0 d.endOff o (Nat.zero_le _) (h4 d hd)
+      omega
+  refine ⟨o, h1, h5, ?_, ?_, ?_⟩
+  · rw [h2]; unfold presumedFile curFile; rw [hall]
+  · intro hn
+    have := hline 0 (by rw [locAt_plain text o hn]; rfl)
+    simpa using this
+  · intro hn
+    exact hline 1 (by rw [locAt_nl text o hn])
+
+example : ((run false inC b!"# 5 \"f.c\"\nx = \"abc\n").err.map fun e => (e.file, e.line, e.col, e.kind, e.tok)) =
+    some (b!"f.c", 6, 0, .scan .nlStr, none) := by decide +kernel
+example : ((run false inC b!"a\n/* b\n\n").err.map fun e => (e.file, e.line, e.col, e.kind)) =
+    some (inC, 4, 1, .scan .eofComment) := by decide +kernel
 
 /-! ## 3. The effect of a line directive -/
 
@@ -214,7 +267,7 @@ theorem tok_off_increasing (nl : Bool) (file text : List UInt8) :
 theorem diag_after_tokens (nl : Bool) (file text : List UInt8) (e : PErr) (t : PTok)
     (he : (run nl file text).err = some e) (ht : e.tok = some t) :
     ∀ t' ∈ (run nl file text).toks, t'.off < t.off :=
-  ((run_ok nl file text).2.2.2 e he t ht).2.2.2.2
+  ((run_ok nl file text).2.2.2.1 e he t ht).2.2.2.2
 
 /-- between two line directives the presumed line never decreases along the text (spec) … -/
 theorem presumedLine_mono (text : List UInt8) (D : List LineDir) (o1 o2 : Nat) (h : o1 ≤ o2)
